@@ -105,7 +105,13 @@ func c05Run(t *testing.T, sc c05Scenario, c *vsched.Chooser) (out vsched.Outcome
 		if sc.closer {
 			s.Go("closer", func() { rq.close() })
 		}
-		s.Cleanup(func() { rq.close() })
+		s.Cleanup(func() {
+			rq.close()
+			rq.parkMu.Lock()
+			rq.closed = true
+			rq.cond.Broadcast()
+			rq.parkMu.Unlock()
+		})
 		s.Start()
 		s.Run()
 		// ---- oracle (all controlled threads are parked, blocked or finished)
@@ -169,9 +175,14 @@ func c05Run(t *testing.T, sc c05Scenario, c *vsched.Chooser) (out vsched.Outcome
 		}
 		out.Violations = v
 		out.Obs = strings.Join(h.taken, ",") + fmt.Sprintf("|q=%v", queued)
-		// teardown
+		// teardown: wake every worker whatever close() does (a close that fails to wake them is a
+		// violation reported above, it must not wedge the bubble)
 		s.Stop()
 		rq.close()
+		rq.parkMu.Lock()
+		rq.closed = true
+		rq.cond.Broadcast()
+		rq.parkMu.Unlock()
 	})
 	if p != nil {
 		out.Violations = append(out.Violations, vsched.Fail("panic", "panic in execution: %v", p))
@@ -194,6 +205,7 @@ func TestVerifC05(t *testing.T) {
 		// steal into a non-empty ring, local overflow spilling into the global ring)
 		{name: "2w-prefill3-steal", workers: 2, pushers: [][]int{{4}}, prefill: map[int][]int{0: {1, 2, 3}}, bound: pb},
 		{name: "3w-prefill3+2-steal-repush", workers: 3, pushers: [][]int{{6}}, prefill: map[int][]int{0: {1, 2, 3}, 1: {4, 5}}, repush: map[int]int{1: 1, 4: 1}, bound: vsched.Pick(1, 2)},
+		{name: "2w-prefill4-overflow-spill", workers: 2, pushers: [][]int{{5}}, prefill: map[int][]int{0: {1, 2, 3, 4}}, repush: map[int]int{4: 1}, bound: pb},
 		{name: "2w-prefill3-repush-spill", workers: 2, pushers: [][]int{{4}}, prefill: map[int][]int{0: {1, 2, 3}}, repush: map[int]int{1: 1, 2: 1, 3: 1}, bound: pb},
 		{name: "2w-1p2-close", workers: 2, pushers: [][]int{{1, 2}}, repush: map[int]int{1: 1}, closer: true, bound: pb},
 		{name: "3w-2p2-close", workers: 3, pushers: [][]int{{1, 2}, {3}}, repush: map[int]int{1: 1, 3: 1}, closer: true, bound: vsched.Pick(1, 2)},
